@@ -272,4 +272,15 @@ pub fn gen(rng: &mut Rng, tier: Tier, out: &mut Vec<String>) {
         for class in 0..7 { for (n, m1, m2) in [(2usize, 1usize, 1usize), (3, 1, 1), (4, 2, 1), (5, 1, 2), (6, 2, 2), (3, 2, 0), (3, 0, 2)] {
             out.push(one::<Q>(rng, n, m1, m2, class)); out.push(one::<f64>(rng, n, m1, m2, class)); } }
     }
+
+    // LARGER ORDERS (11 .. 65) with narrow, wide and one-sided bands
+    for _ in 0..(if tier == Tier::Quick { 10 } else { 200 }) {
+        let n = big(rng, 65);
+        let (m1, m2) = match rng.below(7) { 0 => (0, 0), 1 => (1, 1), 2 => (2, 1), 3 => (1, 3), 4 => (rng.below(6), rng.below(6)), 5 => (if n <= 25 { n - 1 } else { 7 }, 0), _ => (0, if n <= 25 { n - 1 } else { 9 }) };
+        let class = rng.below(7);
+        out.push(one::<f64>(rng, n, m1, m2, class));
+        out.push(one::<f64>(rng, n, m1, m2, 6));
+        if n <= 33 { out.push(one::<Q>(rng, n, m1.min(2), m2.min(2), 6)); let cl = rng.below(5); out.push(one::<Cmplx>(rng, n, m1, m2, cl)); }
+        if n <= 40 { let cl = *rng.pick(&[0usize, 4, 6]); out.push(one_k::<f64>(rng, n, m1, m2, cl, 2)); }
+    }
 }
